@@ -13,6 +13,12 @@ RE_MENU = [
     (r'kgs', lambda r: 'kgs'),
     (r'Unit_9', lambda r: 'Unit_9'),
 ]
+# separators that may match the empty string (only ever used as repetition separators)
+SEP_RE_MENU = [
+    (r',?', lambda r: r.choice([',', ',', ''])),
+    (r';?', lambda r: r.choice([';', ''])),
+    (r'(and)?', lambda r: r.choice(['and', ''])),
+]
 SYMS = ['{', '}', ',', ';', '->', ':', '(', ')', '=', '@', '%%']
 
 class G:
@@ -28,6 +34,8 @@ class G:
     # probability that a keyword position re-uses the text of a keyword issued before (the same literal then occurs in
     # several roles of one grammar: sequence head, separator, assigned value, suppressed element, match-rule body)
     preuse = 0.0
+    # probability that the separator of a list assignment is a regex that may match the empty string
+    poptsep = 0.0
 
     def newkw(self):
         if self.preuse and self.r.random() < self.preuse:
@@ -122,6 +130,9 @@ class G:
         a = Assign(attr, op, rhs)
         if op in ('+=', '*=') and r.random() < 0.5:
             a.sep = Lit(r.choice([',', ';', '|', ',', 'and', 'By']))
+            if self.poptsep and r.random() < self.poptsep:
+                a.sep = Re(r.choice(SEP_RE_MENU)[0])
+                self.used_features.add('separator-may-match-empty')
         if op in ('+=', '*=') and r.random() < 0.1:
             a.eolterm = True
             self.used_features.add('eolterm')
@@ -346,7 +357,7 @@ class Deriver:
         if isinstance(e, Lit):
             return self.gap(ctx) + e.s
         if isinstance(e, Re):
-            for pat, fn in RE_MENU:
+            for pat, fn in RE_MENU + SEP_RE_MENU:
                 if pat == e.pat:
                     return self.gap(ctx) + fn(r)
             if e.pat.startswith('//'):
